@@ -408,11 +408,10 @@ example : (Registry.readTagsFrom 3 [] (Stream.ofBytes [1, 1, 0x61, 2, 2, 0])).1 
 /-- a registry of two entries, the second without data -/
 example : (Registry.readFrom (byteDec 0) (Stream.ofBytes [2, 1, 0x61, 1, 7, 1, 0x62, 0])).1 =
     Res.ok ([([0x61], 7#8)], 8) := by decide +kernel
-/-- `NBTField` reports an error that wraps `nbt.ErrEND` as success: a list of End with count 3 (entry "a") is accepted,
-ten bytes consumed, and the registry goes on reading after the list header (what the Go code does; observation for
-C03/C06, not a panic) -/
+/-- since the repair of `NBTField.ReadFrom` (only a LONE TAG_End means "no value") a list of End with count 3 inside a
+registry entry is an error again -/
 example : ((Registry.readFrom Registry.nbtFieldDyn (Stream.ofBytes [1, 1, 0x61, 1, 9, 0, 0, 0, 0, 3])).1.map
-    fun r => (r.1.length, r.2)) = Res.ok (1, 10) := by decide +kernel
+    fun r => (r.1.length, r.2)) = Res.err := by decide +kernel
 /-- negative String length `ff ff ff ff 0f` -/
 example : stringDec [] (Stream.ofBytes [0xff, 0xff, 0xff, 0xff, 0x0f, 1, 2]) = (Res.err, Stream.ofBytes [1, 2]) := by
   decide +kernel
